@@ -116,3 +116,29 @@ def ref_kwargs(cfg):
     return dict(dot=bool(cfg.get('dot')), globstar=bool(cfg.get('globstar')), globstarlong=bool(cfg.get('globstarlong')),
                 matchbase=bool(cfg.get('matchbase')), nodotdir=bool(cfg.get('nodotdir')) or not cfg.get('scandotdir'),
                 nodir=bool(cfg.get('nodir')), icase=bool(cfg.get('icase')) and not cfg.get('case'))
+
+
+def literal_variants(entry_paths):
+    """Systematic patterns for a list of entry paths: the path itself, each segment case-swapped, replaced by `*`, by `**`,
+    or by first-letter + `*`.  Yields tuples of segments (Seq | 'GS')."""
+    seen = set()
+    for p in entry_paths:
+        parts = p.split('/')
+        variants = [tuple(A.lits(x) for x in parts)]
+        for i in range(len(parts)):
+            sw = list(parts)
+            sw[i] = sw[i].swapcase()
+            variants.append(tuple(A.lits(x) for x in sw))
+            st_ = [A.lits(x) for x in parts]
+            st_[i] = (A.STAR,)
+            variants.append(tuple(st_))
+            gs = [A.lits(x) for x in parts]
+            gs[i] = A.GS
+            variants.append(tuple(gs))
+            q = [A.lits(x) for x in parts]
+            q[i] = (A.lit(parts[i][0]), A.STAR) if parts[i][0] != '.' else (A.lit('.'), A.STAR)
+            variants.append(tuple(q))
+        for v in variants:
+            if v not in seen:
+                seen.add(v)
+                yield v
